@@ -886,6 +886,7 @@ def main(ctx) -> int:
         from . import kernels
 
         kernels.check(ctx, files={'BADA/model.py'})
+        kernels.check_vec(ctx, files={'BADA/fuel_burn_base.py'})
         # 3. divergences / broken proofs without a failing clause so far: widened search for a failing input
         if (diverging or ctx.broken) and not ctx.violations:
             srng = make_rng(PID, ctx.seed, 'search')
